@@ -1422,7 +1422,9 @@ impl<T: Storage> Raft<T> {
                 }
             }
         } else if m.term < self.term {
-            if (self.check_quorum || self.pre_vote)
+            // A node that cannot campaign (a learner) has no other way to make a
+            // leader at a lower term catch up with its term.
+            if (self.check_quorum || self.pre_vote || !self.promotable)
                 && (m.get_msg_type() == MessageType::MsgHeartbeat
                     || m.get_msg_type() == MessageType::MsgAppend)
             {
